@@ -32,7 +32,8 @@ RULE = ("26 LIVE cases first (real forked children / real sh children of psutil.
         "PID recycled or not, then repeated waits; Popen objects inside wait_procs, with a chosen set-iteration "
         "priority (all permutations for <=3 in quick, <=4 in thorough), callback function / lambda / bound method / "
         "functools.partial / FALSY callables (empty list subclass with __call__, __len__()==0, __bool__ False) / None / not callable (int, str); "
-        "procs given as list / tuple / generator / set; timeout as int / float / bool / Fraction. Non-trivial = at "
+        "procs given as list / tuple / generator / set, with ALIASES (the same object twice, equal pair, triple, all doubled, Popen + Process "
+        "of one pid) on gone and alive processes; timeout as int / float / bool / Fraction. Non-trivial = at "
         "least one poll or a returned status; distinct = distinct canonical case hash.")
 TRUSTED = ["correspondence harness props/C15.py + props/_c15_vk.py (virtual kernel, virtual clock, fake /proc, set-order control by PID choice)",
            "the Python transcription of the property oracle (_spec_wait/_spec_procs in props/_c15_vk.py), used on the implementation's observations",
@@ -315,6 +316,14 @@ def gen_cases(rng, tier):
                  "procs_as": procs_as, "tm_type": tm_type}
             if pop:
                 c["popen"] = pop
+            elif not pre and rng.random() < 0.25:
+                # aliased input: an object listed twice / another equal Process object of the same process
+                hs = [[i, 0] for i in range(n)]
+                for _ in range(rng.choice([1, 1, 2, 3])):
+                    i = rng.randrange(n)
+                    hs.insert(rng.randrange(len(hs) + 1), [i, rng.choice([0, 0, 1, 2])])
+                c["handles"] = hs
+                c["cls"] += "-alias"
             if pre:
                 c["prewait"], c["inter"] = pre, inter
             cases.append(c)
@@ -332,6 +341,35 @@ def gen_cases(rng, tier):
                               "timeout": None if tmv is None else q(tmv), "cb": cbk, "start": q(0),
                               "procs_as": ["list", "tuple", "generator", "set"][k % 4], "tm_type": tmt})
                 k += 1
+    # systematic: ALIASED input.  P0 has ended, P1 ends 3 ms into the wait, P2 survives (or ends later when there is no
+    # timeout).  Shapes: the same object twice, an equal pair, a triple, everything doubled, an un-collected Popen
+    # and a Process of its pid in both orders -- for the gone and for the alive processes, with callbacks
+    if tier != "search":
+        shapes = {
+            "same-P0": [[0, 0], [1, 0], [0, 0], [2, 0]], "same-P1": [[1, 0], [0, 0], [1, 0], [2, 0]], "same-P2": [[2, 0], [0, 0], [1, 0], [2, 0]],
+            "pair-P0": [[0, 0], [1, 0], [2, 0], [0, 1]], "pair-P1": [[1, 1], [0, 0], [1, 0], [2, 0]], "pair-P2": [[0, 0], [2, 0], [1, 0], [2, 1]],
+            "triple-P0": [[0, 0], [0, 1], [1, 0], [0, 0], [2, 0]], "triple-P2": [[2, 1], [0, 0], [2, 0], [1, 0], [2, 2]],
+            "all-doubled": [[0, 0], [1, 0], [2, 0], [0, 1], [1, 0], [2, 1]],
+            "popen-then-process": [[0, 0], [0, 1], [1, 0], [2, 0]], "process-then-popen": [[0, 1], [1, 0], [0, 0], [2, 0]],
+            "only-aliases-of-one": [[1, 0], [1, 1], [1, 0]],
+        }
+        k = 0
+        for name, hs in shapes.items():
+            for cbk in ("ok", "falsy_list", "none"):
+                for tmv in (F(1, 20), F(0), None):
+                    if (k + len(name)) % 2 and tmv == F(0):
+                        k += 1
+                        continue
+                    ps = [{"pid": 1, "kind": "child", "exit": q(F(-1)), "status": ["code", 0], "eintr": []},
+                          {"pid": 2, "kind": "child", "exit": q(F(3, 1000)), "status": ["sig", 9, False], "eintr": []},
+                          {"pid": 3, "kind": "child", "exit": q(F(1, 100)) if tmv is None else None, "status": ["code", 4], "eintr": []}]
+                    c = {"kind": "procs", "cls": "procs-3-alias-" + ("falsycb" if cbk in VK.CB_FALSY else "cb" if cbk == "ok" else "nocb"),
+                         "procs": ps, "prio": [[0, 1, 2], [2, 0, 1], [1, 2, 0]][k % 3], "timeout": None if tmv is None else q(tmv),
+                         "cb": cbk, "start": q(0), "handles": hs, "procs_as": ["list", "tuple", "generator"][k % 3]}
+                    if "popen" in name:
+                        c["popen"] = {"0": {"reap": "none", "reuse": False}}
+                    cases.append(c)
+                    k += 1
     # systematic: wait_procs([Popen]) after the wrapped object collected status 0 / 3 / -9
     if tier != "search":
         for st in (["code", 0], ["code", 3], ["sig", 9, False]):
@@ -437,6 +475,10 @@ def coq_term(case):
     if k == "procs":
         cb = ("CbNone" if case["cb"] == "none" else "CbBad" if case["cb"] in VK.CB_BAD
               else "(CbOk true)" if case["cb"] in VK.CB_TRUTHY else "(CbOk false)")
+        if case.get("handles"):
+            return "run_procs_in %s [%s] [%s] %s %s %d%%nat %d%%nat %s" % (
+                G.lst([gproc(p) for p in case["procs"]]), "; ".join("%d%%nat" % h[0] for h in case["handles"]),
+                "; ".join("%d%%nat" % i for i in case["prio"]), gopt(case["timeout"]), cb, FUEL, ROUNDS, gq(case["start"]))
         return "run_procs %s [%s] %s %s %d%%nat %d%%nat %s" % (
             G.lst([gproc(p) for p in case["procs"]]), "; ".join("%d%%nat" % i for i in case["prio"]),
             gopt(case["timeout"]), cb, FUEL, ROUNDS, gq(case["start"]))
@@ -592,12 +634,12 @@ def impl_run(case, coq, env):
 
 
 MANIFEST = {
-    "text": "31 theorems (Coq, exact rational virtual time, for every exit instant, timeout, process kind, exit status and EINTR placement incl. a blocking "
+    "text": "33 theorems (Coq, exact rational virtual time, for every exit instant, timeout, process kind, exit status and EINTR placement incl. a blocking "
             "waitpid interrupted at any instant): status decoding; a returned status/None is never early; TimeoutExpired(timeout, pid) only at or after the "
             "deadline, less than 40 ms late, and -- on EINTR-free schedules -- with the process alive (EINTR case refuted with a witness: known finding); "
             "k-th sleep = min(2^k/10000, 1/25), timeout=0 never sleeps, negative timeout -> ValueError; TERMINATION: with a timeout ceil(25*timeout)+12 "
             "loop steps suffice for every causal kernel, without a timeout the call returns iff the exit instant is finite, wait_procs needs at most "
-            "len(procs)+ceil(timeout)+1 rounds; the cached value is returned without a kernel call; wait_procs partitions its input, sets returncode and "
+            "len(procs)+ceil(timeout)+1 rounds; the cached value is returned without a kernel call; wait_procs partitions the DISTINCT processes of its input (aliases -- an object listed twice, equal objects of one process -- collapse: input is a multiset of handles over processes; returned lists duplicate-free, len(gone)+len(alive) = number of distinct processes), sets returncode and "
             "calls the callback exactly once per gone process for EVERY callable whatever its truth value (callback presence is an option in the model, a falsy callable gives the same run as a truthy one) and returns before timeout + 40 ms for every iteration order; POPEN (psutil.Popen wrapping subprocess.Popen; state = "
             "subprocess-side returncode + psutil-side cache): once a status has been collected by either side, 0 included, wait() returns it at once for "
             "every kernel and timeout, along every later history, for every order of reaping (poll/communicate/__exit__ first, or psutil's wait first), and a negative timeout raises ValueError in every state "
